@@ -101,8 +101,19 @@ fn main() {
                 threads: getf("threads", 16.0) as usize,
                 seed: getf("seed", 0.0) as u64,
                 fresh_thread_depth: getf("fresh", 3.0) as usize,
+                focus: m.get("focus").cloned(),
             };
             let r = explore::explore(&cfg, &lim);
+            let found_json = |f: &explore::Found| {
+                J::obj(vec![
+                    ("history", J::s(&encode_history(&f.history))),
+                    ("history_pretty", J::s(&fmt_history(&f.history))),
+                    ("epilogue", J::s(&encode_history(&f.epilogue))),
+                    ("epilogue_pretty", J::s(&fmt_history(&f.epilogue))),
+                    ("violations", J::Arr(f.violations.iter().map(viol_json).collect())),
+                ])
+            };
+            let pruned: Vec<J> = r.pruned_other.iter().map(|(p, n, f)| J::obj(vec![("property", J::s(p)), ("count", J::n(*n as f64)), ("sample", found_json(f))])).collect();
             let found: Vec<J> = r
                 .found
                 .iter()
@@ -153,6 +164,8 @@ fn main() {
                 ),
                 ("machinery_errors", J::Arr(r.machinery_errors.iter().take(10).map(|s| J::s(s)).collect())),
                 ("found", J::Arr(found)),
+                ("pruned_other_properties", J::Arr(pruned)),
+                ("lens_args", J::s(&std::env::args().skip(2).collect::<Vec<_>>().join(" "))),
                 ("wall_s", J::n(r.wall_s)),
             ]);
             let text = out.to_string();
